@@ -138,7 +138,9 @@ theorem v1txn_conserves {T} {ms ms' : Mid} {t : Txn1} {pid : Id} {mw : Nat} {R :
     Inv T ms' ∧ Fresh T ms' R ∧ ms'.base = ms.base ∧
     Phi ms' + t.fees.sum = Phi ms + t.claims ms ∧ sfTot ms' = sfTot ms ∧ ms.pool ≤ ms'.pool ∧
     (CsOk ms → CsOk ms' ∧ Psi ms' + 10000 * t.claims ms ≤ Psi ms + (ms'.pool - ms.pool) * sfTot ms) ∧
-    ms'.pool = ms.pool + t.taxes ms.base := by
+    ms'.pool = ms.pool + t.taxes ms.base ∧
+    (1 ≤ ms.base.P.maturityDelay →
+      scW (wImm ms.base.child) ms + t.claims ms ≤ scW (wImm ms.base.child) ms') := by
   obtain ⟨hv1, hv2, hv3, hv4⟩ := validateTransaction_ok hv
   obtain ⟨hsc, hbal⟩ := validateSiacoins1_ok hv1
   obtain ⟨hsf, hsfbal⟩ := validateSiafunds1_ok hv2
@@ -159,7 +161,7 @@ theorem v1txn_conserves {T} {ms ms' : Mid} {t : Txn1} {pid : Id} {mw : Nat} {R :
   cases ha
   -- preconditions relative to the state before the transaction
   have pSc : ∀ sci ∈ t.scIns, PendSc1 T ms t.supp sci := fun sci h => by
-    obtain ⟨h1, p, hp⟩ := hsc sci h; exact pendSc1_of hc hI hsupp h1 hp
+    obtain ⟨h1, p, hp, _⟩ := hsc sci h; exact pendSc1_of hc hI hsupp h1 hp
   have pSf : ∀ sfi ∈ t.sfIns, PendSf1 T ms t.supp sfi := fun sfi h => by
     obtain ⟨h1, p, hp⟩ := hsf sfi h; exact pendSf1_of hc hI hsupp h1 hp
   have pRev : ∀ r ∈ t.revs, PendRev1 T ms t.supp r := fun r h => by
@@ -182,7 +184,7 @@ theorem v1txn_conserves {T} {ms ms' : Mid} {t : Txn1} {pid : Id} {mw : Nat} {R :
   unfold Txn1.created at hF
   simp only [List.append_assoc] at hF
   -- 1. siacoin inputs
-  obtain ⟨r1, e1P, e1S, e1p⟩ := loop_scIns1 t.supp t.scIns ms ms1 hc hI pSc hndsc a1
+  obtain ⟨r1, e1P, e1S, e1p, e1W⟩ := loop_scIns1 t.supp t.scIns ms ms1 hc hI pSc hndsc a1
   have F1 := hF.agree r1.agree (by
     intro q hq hm
     obtain ⟨sci, hs, he⟩ := List.mem_map.mp hm
@@ -190,7 +192,7 @@ theorem v1txn_conserves {T} {ms ms' : Mid} {t : Txn1} {pid : Id} {mw : Nat} {R :
     exact h3.not_fresh hF q hq (he.symm.trans h2.symm))
   have hc1 : Ctx T ms1.base := by rw [r1.base]; exact hc
   -- 2. siacoin outputs
-  obtain ⟨r2, F2, e2P, e2S, e2p⟩ := loop_scOuts t.scOuts ms1 ms2 _ hc1 r1.inv F1 a2
+  obtain ⟨r2, F2, e2P, e2S, e2p, e2W⟩ := loop_scOuts t.scOuts ms1 ms2 _ hc1 r1.inv F1 a2
   have hc2 : Ctx T ms2.base := by rw [r2.base]; exact hc1
   have inF_scOut : ∀ x, x ∈ t.scOuts.map (·.1) → ∃ q ∈ (t.scOuts.map (fun x => (Kind.sc, x.1)) ++ (t.sfIns.map (fun i => (Kind.sc, i.claimId)) ++
       (t.sfOuts.map (fun x => (Kind.sf, x.1)) ++ (t.fcs.map (fun x => (Kind.fc1, x.1)) ++ (t.proofs.flatMap Proof1.created ++ R))))), q.2 = x := by
@@ -224,7 +226,7 @@ theorem v1txn_conserves {T} {ms ms' : Mid} {t : Txn1} {pid : Id} {mw : Nat} {R :
     · intro hm
       obtain ⟨q, hq, he⟩ := inF_scOut _ hm
       exact h0.not_fresh hF q hq he
-  obtain ⟨r3, F3, e3P, e3S, e3p, e3W⟩ := loop_sfIns1 t.supp t.sfIns ms2 ms3 _ hc2 r2.inv pSf2 hndsf F2 a3
+  obtain ⟨r3, F3, e3P, e3S, e3p, e3W, e3Wc⟩ := loop_sfIns1 t.supp t.sfIns ms2 ms3 _ hc2 r2.inv pSf2 hndsf F2 a3
   have hc3 : Ctx T ms3.base := by rw [r3.base]; exact hc2
   -- 4. siafund outputs
   obtain ⟨r4, F4, e4P, e4S, e4p, e4W⟩ := loop_sfOuts t.sfOuts ms3 ms4 _ hc3 r3.inv F3 a4
@@ -273,7 +275,7 @@ theorem v1txn_conserves {T} {ms ms' : Mid} {t : Txn1} {pid : Id} {mw : Nat} {R :
     refine ((pPr sp h).agree hA hnP).agree r6.agree ?_
     have hne : t.proofs ≠ [] := by intro he; rw [he] at h; cases h
     rw [(hmix hne).2.2.2]; simp
-  obtain ⟨r7, F7, e7P, e7S, e7p⟩ := loop_proofs1 t.supp t.proofs ms6 ms7 R hc6 r6.inv pPr6 hprn F6 a7
+  obtain ⟨r7, F7, e7P, e7S, e7p, e7W⟩ := loop_proofs1 t.supp t.proofs ms6 ms7 R hc6 r6.inv pPr6 hprn F6 a7
   -- 8. scalars
   obtain ⟨f1, f2, f3, f4, f5, f6, f7, f8⟩ := foundation1_fields ms7 t
   have hb7 : ms7.base = ms.base := by
@@ -305,7 +307,7 @@ theorem v1txn_conserves {T} {ms ms' : Mid} {t : Txn1} {pid : Id} {mw : Nat} {R :
     have h3 : (t.sfIns.map (sfInVal ms t.supp)).sum = (t.sfOuts.map (·.2.1)).sum := h1.symm.trans (hsfbal.trans h2)
     clear hsfbal hbal h1 h2 hin hnw hsfb
     omega
-  refine ⟨r7.inv.scalars f1 f2 f3 f4 f5 f6 f7, ?_, f1.trans hb7, ?_, ?_, ?_, ?_, ?_⟩
+  refine ⟨r7.inv.scalars f1 f2 f3 f4 f5 f6 f7, ?_, f1.trans hb7, ?_, ?_, ?_, ?_, ?_, ?_⟩
   · exact F7.agree (agree_scalars f1 f2 f3 f4 f5 f6 f7 (fun _ => False)) (fun _ _ h => h)
   · rw [Phi_scalars f1 f4 f6 f7 f8]
     unfold Txn1.claims
@@ -353,5 +355,46 @@ theorem v1txn_conserves {T} {ms ms' : Mid} {t : Txn1} {pid : Id} {mw : Nat} {R :
     omega
   · unfold Txn1.taxes
     rw [f8, e7p, e6p, e5p, e4p, e3p, e2p, e1p, hb4]
+  · intro hmd
+    have h1 := e1W (wImm ms.base.child) (wImm_congr _)
+    have z1 : (t.scIns.map (scInW ms t.supp (wImm ms.base.child))).sum = 0 := by
+      apply sum_map_zero; intro sci hm
+      obtain ⟨_, p, hp, hmat⟩ := hsc sci hm
+      unfold scInW; rw [hp]; simp only []
+      unfold wImm; rw [if_pos hmat]
+    have h2 := e2W (wImm ms.base.child)
+    have z2 : (t.scOuts.map (fun x => wImm ms.base.child ⟨x.1, x.2.value, x.2.addr, 0, none⟩)).sum = 0 := by
+      apply sum_map_zero; intro x _
+      unfold wImm; rw [if_pos (Nat.zero_le _)]
+    have h3 := e3Wc (wImm ms.base.child)
+    have hb2 : ms2.base = ms.base := by rw [r2.base, r1.base]
+    have z3 : (t.sfIns.map (sfInClaimW ms2 t.supp (wImm ms.base.child))).sum = t.claims ms := by
+      unfold Txn1.claims
+      rw [← hsfeq]
+      congr 1; apply List.map_congr_left; intro i _
+      unfold sfInClaimW sfInClaim
+      cases ms2.sfElement t.supp i.parent with
+      | none => rfl
+      | some e =>
+        simp only []
+        unfold wImm maturityHeight
+        rw [hb2]
+        have : ¬ (ms.base.child + ms.base.P.maturityDelay ≤ ms.base.child) := by omega
+        simp only []
+        rw [if_neg this]
+    have h4 := foldlM_scW_same stepSfOut (fun b a b' hh w => by cases hh; exact scW_createSf _ _ _ _ w) _ _ _ a4
+      (wImm ms.base.child)
+    have h5 := foldlM_scW_same stepFc1 (fun b a b' hh w => scW_createFc1 hh w) _ _ _ a5 (wImm ms.base.child)
+    have h6 := foldlM_scW_same (stepRev1 t.supp) (fun b a b' hh w => by
+      unfold stepRev1 at hh
+      split at hh
+      · cases hh
+      · cases hh; exact scW_reviseFc1 _ _ _ w) _ _ _ a6 (wImm ms.base.child)
+    have h7 := e7W (wImm ms.base.child)
+    have h8 : scW (wImm ms.base.child) (foundation1 ms7 t) = scW (wImm ms.base.child) ms7 := scW_congr _ f1 f4
+    rw [z3] at h3
+    rw [z2] at h2
+    rw [z1] at h1
+    omega
 
 end Sia.Ledger
